@@ -49,7 +49,7 @@ LEVEL_NOTE = ('Trusted: NumPy long-double arithmetic, Hypothesis, the '
               'whose products do not overflow the dtype; array weights '
               'strictly positive; sizes >= 1.')
 DESIGN_REF = 'DESIGN.md section 5, C02'
-BUDGET = {'quick': 10000, 'thorough': 150000}
+BUDGET = {'quick': 10000, 'thorough': 100000}
 TOLERANCES = {
     'formula': '|got - ref| <= (4 N + 64) * eps * M with N = number of scalar '
                'entries, eps = machine epsilon of the narrowest component '
@@ -484,6 +484,31 @@ def _dtype0(sd):
     return 'int' if next(iter(dts)).kind in 'iu' else 'float'
 
 
+def _taints(sd, node):
+    """Regions of known findings among the *descendants* of a product
+    space: their defects surface in the parent's results as well (the
+    parent reduces the components' norms / inner products), so the parent's
+    signature has to carry them."""
+    out = set()
+    if node['leaf']:
+        return out
+    for psd, pnode in zip(build.space_parts(sd), node['parts']):
+        if pnode['leaf']:
+            dt = np.dtype(psd.get('dtype', 'float64'))
+            if dt.kind in 'iu' and pnode['bdry']:
+                out.add('sub:int-bdry')
+        else:
+            out.add('sub:dtype0=' + _dtype0(psd))
+            if pnode['p'] == 2.0 and not all(c['has_inner']
+                                             for c in pnode['parts']):
+                out.add('sub:comp-no-inner')
+            if not all(c['has_norm'] for c in pnode['parts']):
+                out.add('sub:comp-no-norm')
+            out |= _taints(psd, pnode)
+    out.discard('sub:dtype0=float')
+    return out
+
+
 def _region(sd, node):
     """Region part of a signature: everything the code paths branch on."""
     ks = _dtkinds(sd)
@@ -503,6 +528,7 @@ def _region(sd, node):
             parts.append('comp-no-inner')
         if not all(c['has_norm'] for c in node['parts']):
             parts.append('comp-no-norm')
+        parts.extend(sorted(_taints(sd, node)))
     return ','.join(parts)
 
 
@@ -550,10 +576,7 @@ def _check_formulas(space, sd, node, x, y, xv, yv, ctx, unsigned, top):
     site = _site(sd)
     if not node['leaf']:
         parts = build.space_parts(sd)
-        seen = set()
         for i, (psd, pnode) in enumerate(zip(parts, node['parts'])):
-            if sd.get('power') is not None and i in seen:
-                continue
             # a power space has one distinct component space; check its
             # first and last element parts
             if sd.get('power') is not None and 0 < i < len(parts) - 1:
